@@ -20,6 +20,32 @@ fn canon(labels: &[usize]) -> Vec<usize> {
 // ------------------------------------------------------------------------------------------------
 // execution of the real code
 
+const FP_MOD: u128 = 2305843009213693951;
+
+/// fingerprint of one run (same definition as `fingerprint` in lean/Tbx/Drv/C16.lean)
+fn fingerprint(a: &[usize], b: &[usize], cyc: bool) -> u128 {
+    let mut xs: Vec<u128> = canon(a).iter().map(|x| *x as u128).collect();
+    xs.push(9999);
+    xs.extend(canon(b).iter().map(|x| *x as u128));
+    xs.push(9999);
+    xs.push(cyc as u128);
+    xs.push(a.iter().filter(|x| **x == usize::MAX).count() as u128);
+    xs.push(b.iter().filter(|x| **x == usize::MAX).count() as u128);
+    xs.iter().fold(7u128, |h, x| (h * 31 + x + 1) % FP_MOD)
+}
+
+fn mask_edges(n: usize, mask: u64) -> Vec<InputEdge<i32>> {
+    let mut es = Vec::new();
+    for u in 0..n {
+        for v in 0..n {
+            if (mask >> (u * n + v)) & 1 == 1 {
+                es.push(InputEdge::new(u, v, 1));
+            }
+        }
+    }
+    es
+}
+
 fn exec_scc(c: &Case, obs: &mut Vec<String>) {
     let mut tarjan = Tarjan::new();
     let mut gabow = PathBasedScc::new();
@@ -36,16 +62,22 @@ fn exec_scc(c: &Case, obs: &mut Vec<String>) {
                 gabow = PathBasedScc::new();
             }
             "gm" => {
-                let n: usize = t[1].parse().unwrap();
-                let mask: u64 = t[2].parse().unwrap();
-                pending.clear();
-                for u in 0..n {
-                    for v in 0..n {
-                        if (mask >> (u * n + v)) & 1 == 1 {
-                            pending.push(InputEdge::new(u, v, 1));
-                        }
-                    }
+                pending = mask_edges(t[1].parse().unwrap(), t[2].parse().unwrap());
+                do_run = true;
+            }
+            "rep" => {
+                // N consecutive analyses of one graph by the SAME objects; the first N-1 are only hashed
+                let cnt: u64 = t[1].parse().unwrap();
+                pending = mask_edges(t[2].parse().unwrap(), t[3].parse().unwrap());
+                let mut h: u128 = 0;
+                for _ in 1..cnt {
+                    let graph = StaticGraph::<i32>::new(pending.clone());
+                    let a = tarjan.run(&graph);
+                    let b = gabow.run(&graph);
+                    let cyc = cycle_check(&graph);
+                    h = (h * 1000003 + fingerprint(&a, &b, cyc)) % FP_MOD;
                 }
+                obs.push(format!("D {k} S silent={} hash={h}", cnt.saturating_sub(1)));
                 do_run = true;
             }
             _ => panic!("bad op"),
@@ -243,6 +275,102 @@ fn random_digraph(rng: &mut Rng, n: usize, shape: u64) -> Vec<(usize, usize)> {
     }
     rng.shuffle(&mut es);
     es
+}
+
+/// adjacency mask of an edge list on n nodes (bit u*n+v)
+fn mask_of(n: usize, es: &[(usize, usize)]) -> u64 {
+    es.iter().fold(0u64, |m, (u, v)| m | (1u64 << (u * n + v)))
+}
+
+/// a tiny graph whose LAST node has an edge (so that it really has `n` nodes), with a cycle and a tail
+fn tiny_graph(rng: &mut Rng, n: usize) -> (usize, u64) {
+    let mut es: Vec<(usize, usize)> = Vec::new();
+    if n >= 2 {
+        es.push((n - 2, n - 1));
+        if rng.chance(1, 2) {
+            es.push((n - 1, n - 2));
+        }
+    } else {
+        es.push((0, 0));
+    }
+    for _ in 0..rng.below(n as u64 + 1) {
+        es.push((rng.below(n as u64) as usize, rng.below(n as u64) as usize));
+    }
+    (n, mask_of(n, &es))
+}
+
+/// ONE Tarjan and ONE PathBasedScc object driven through long histories of runs on tiny graphs of varying
+/// sizes (cycle_check, a pure function, is called along).  `rep N n mask` = N consecutive runs.
+fn gen_long_reuse(rng: &mut Rng, tier: Tier, out: &mut Vec<Case>) {
+    // two 3-cycles joined one way: components {0,1,2} {3,4,5}
+    let big6 = (6usize, mask_of(6, &[(0, 1), (1, 2), (2, 0), (2, 3), (3, 4), (4, 5), (5, 3)]));
+    let small2 = (2usize, mask_of(2, &[(0, 1)]));
+    let rep = |c: &mut Case, n: u64, g: (usize, u64)| {
+        c.op(format!("rep {n} {} {}", g.0, g.1));
+    };
+    // larger graph, many smaller ones, the larger one again exactly `gap` runs later
+    for gap in [255u64, 256, 257, 511, 512, 65535, 65536, 65537] {
+        if gap > 600 && tier == Tier::Quick && gap != 65536 {
+            continue;
+        }
+        for first in [1u64, 2, 7] {
+            let mut c = Case::new("scc-long-reuse");
+            if first > 1 {
+                rep(&mut c, first - 1, small2);
+            }
+            rep(&mut c, 1, big6);
+            rep(&mut c, gap - 1, small2);
+            rep(&mut c, 1, big6);
+            rep(&mut c, 2, small2);
+            rep(&mut c, 1, big6);
+            out.push(c);
+        }
+    }
+    // a graph larger than every earlier one exactly at history run `at`
+    for at in [255u64, 256, 257, 258, 512, 513, 65536, 65537] {
+        for variant in 0..2 {
+            let mut c = Case::new("scc-long-reuse");
+            // varying small sizes 1..3 before
+            let mut left = at - 1;
+            let mut i = 0;
+            while left > 0 {
+                let chunk = if variant == 0 { left } else { (1 + rng.below(97)).min(left) };
+                let g = tiny_graph(rng, 1 + (i % 3));
+                rep(&mut c, chunk, g);
+                left -= chunk;
+                i += 1;
+            }
+            rep(&mut c, 1, big6);
+            let g = tiny_graph(rng, 4);
+            rep(&mut c, 3, g);
+            rep(&mut c, 1, big6);
+            out.push(c);
+        }
+    }
+    // random long histories: sizes go up and down, every size returns after various gaps
+    let ncases = if tier == Tier::Quick { 12 } else { 60 };
+    for i in 0..ncases {
+        let mut c = Case::new("scc-long-reuse");
+        let target: u64 = if i % 6 == 5 { 70_000 } else { 300 + rng.below(700) };
+        let mut total = 0u64;
+        let mut graphs: Vec<(usize, u64)> = Vec::new();
+        for j in 0..5usize {
+            let extra = rng.below(2) as usize;
+            graphs.push(tiny_graph(rng, 1 + j + extra));
+        }
+        while total < target {
+            let g = *rng.pick(&graphs);
+            let big = rng.chance(1, 3);
+            let chunk = if big { 1 + rng.below(if target > 10_000 { 30_000 } else { 260 }) } else { 1 + rng.below(4) };
+            rep(&mut c, chunk, g);
+            total += chunk;
+        }
+        // every graph once more at the end
+        for g in &graphs {
+            rep(&mut c, 1, *g);
+        }
+        out.push(c);
+    }
 }
 
 fn gen_scc(rng: &mut Rng, tier: Tier, out: &mut Vec<Case>) {
@@ -488,6 +616,8 @@ fn generate(rng: &mut Rng, tier: Tier, out: &mut Vec<Case>) {
     let mut r2 = rng.fork();
     let mut r3 = rng.fork();
     gen_scc(&mut r1, tier, out);
+    let mut r4 = rng.fork();
+    gen_long_reuse(&mut r4, tier, out);
     gen_mst(&mut r2, tier, out);
     gen_uf(&mut r3, tier, out);
 }
